@@ -11,6 +11,7 @@ import (
 
 	"verif/internal/dbgen"
 	"verif/internal/ev"
+	"verif/internal/lite"
 	"verif/internal/vpager"
 
 	"github.com/alicebob/sqlittle"
@@ -51,7 +52,7 @@ func c04Probes(rows []dbgen.Row) []int64 {
 }
 
 func runC04(r *ev.Run) {
-	r.Rule = "every T1 table b-tree shape within bounds x 3 rowid sets x 2 layouts (separator = max of left / value in the gap) x every probe rowid {present, both neighbours, gap middle, last of gap (= separator), min64, max64, 0, -1, 1} through SelectRowid, PKSelect(alias pk) and Table.Rowid, each lookup also with the column lists {rowid}, {alias}, {oid, _rowid_, alias}, {} and {one stored column}, then every probe again in descending order on the same handle; plus brim-full leaves at page sizes 512/1024/4096 (a row with one partly filled overflow page at the lowest address of a page that is full to the last byte); oracle = the builder's logical rows; non-trivial = probes on images with interior pages"
+	r.Rule = "every T1 table b-tree shape within bounds x 3 rowid sets x 2 layouts (separator = max of left / value in the gap) x every probe rowid {present, both neighbours, gap middle, last of gap (= separator), min64, max64, 0, -1, 1} through SelectRowid, PKSelect(alias pk) and Table.Rowid, each lookup also with the column lists {rowid}, {alias}, {oid, _rowid_, alias}, {} and {one stored column}, then every probe again in descending order on the same handle; plus brim-full leaves at page sizes 512/1024/4096 (a row with one partly filled overflow page at the lowest address of a page that is full to the last byte); every legal page size 512..65536 x SQLite-written tables with no row (never filled / emptied), one row, a few rows incl. int64 min/max; oracle = the builder's logical rows / SQLite's rows; non-trivial = probes on images with interior pages"
 	r.Set("bounds", fmt.Sprintf("%+v", allBounds(r)))
 	cols := []string{"a", "b", "c", "d", "e", "rowid"}
 	defer func() {
@@ -212,7 +213,81 @@ func c04Image(r *ev.Run, si *ShapeImage, cols []string) {
 }
 
 func init() {
-	c04Extra = func(r *ev.Run) { zooRun(r, "C04") }
+	c04Extra = func(r *ev.Run) { zooRun(r, "C04"); c04PageSizes(r) }
+}
+
+// c04PageSizes: every legal page size x tables with no row (never filled / emptied again), one row and a few
+// rows, written by SQLite: every probe through the three lookups. (A page of a 65536-byte-page file that holds
+// no cell stores its content offset as 0.)
+func c04PageSizes(r *ev.Run) {
+	for _, ps := range []int{512, 1024, 2048, 4096, 8192, 16384, 32768, 65536} {
+		l, err := lite.OpenMem()
+		if err != nil {
+			r.Harness("lite: %v", err)
+			return
+		}
+		l.MustExec(fmt.Sprintf("PRAGMA page_size=%d", ps))
+		l.MustExec("CREATE TABLE fresh (id INTEGER PRIMARY KEY, v); CREATE TABLE emptied (id INTEGER PRIMARY KEY, v); CREATE TABLE one (id INTEGER PRIMARY KEY, v); CREATE TABLE few (id INTEGER PRIMARY KEY, v); CREATE TABLE plain (v)")
+		l.MustExec("INSERT INTO emptied VALUES (1, 'a'), (2, 'b'), (-5, 'c'); DELETE FROM emptied; INSERT INTO one VALUES (7, 'seven'); INSERT INTO few VALUES (-9223372036854775808, 'min'), (-1, 'm1'), (0, 'zero'), (3, 'three'), (9223372036854775807, 'max'); INSERT INTO plain VALUES ('p1'), ('p2'); DELETE FROM plain WHERE rowid = 1")
+		img := l.Serialize()
+		r.Validated(1)
+		r.StateBytes(img)
+		h, d, _, err := vpager.OpenImage(img)
+		desc := map[string]interface{}{"family": "page-sizes-and-empty-tables", "page_size": ps, "builder": "sqlite"}
+		if err != nil {
+			r.Violation("C04:open", fmt.Sprintf("database written by SQLite refused: %v", err), desc)
+			l.Close()
+			continue
+		}
+		for _, tn := range []string{"fresh", "emptied", "one", "few", "plain"} {
+			present := map[int64][]interface{}{}
+			rows, err := l.Query("SELECT rowid, v FROM " + tn)
+			if err != nil {
+				r.Harness("C04 page sizes oracle: %v", err)
+				continue
+			}
+			for _, row := range rows {
+				present[row[0].(int64)] = row
+			}
+			for _, id := range []int64{math.MinInt64, math.MinInt64 + 1, -5, -1, 0, 1, 2, 3, 4, 7, 8, math.MaxInt64 - 1, math.MaxInt64} {
+				want, ok := present[id]
+				art := map[string]interface{}{"image": desc, "table": tn, "rowid": id, "present": ok}
+				class := "absent"
+				if ok {
+					class = "present"
+				}
+				r.Eval(1)
+				r.NontrivialN(1)
+				row, err := h.SelectRowid(tn, id, "rowid", "v")
+				r.Trans(1)
+				c04Judge(r, "SelectRowid", class, id, CopyRowOrNil(row), err, want, ok, art)
+				if tn != "plain" {
+					var got [][]interface{}
+					err = h.PKSelect(tn, sqlittle.Key{id}, func(rw sqlittle.Row) { got = append(got, CopyRow(rw)) }, "rowid", "v")
+					r.Trans(1)
+					var one []interface{}
+					if len(got) == 1 {
+						one = got[0]
+					}
+					c04Judge(r, "PKSelect", class, id, one, err, want, ok, art)
+				}
+				d.RLock()
+				tb, err := d.Table(tn)
+				found := false
+				if err == nil {
+					rec, e := tb.Rowid(id)
+					err = e
+					found = rec != nil
+				}
+				d.RUnlock()
+				r.Trans(1)
+				if err != nil || found != ok {
+					r.Violation("C04:Table.Rowid:"+class, fmt.Sprintf("Table.Rowid(%d) on %s: record=%v err=%v, row present=%v", id, tn, found, err, ok), art)
+				}
+			}
+		}
+		l.Close()
+	}
 }
 
 func CopyRowOrNil(r sqlittle.Row) []interface{} {
